@@ -37,3 +37,29 @@ def G3(nets="net1", lazy=True, **kw):
 VM1_CHAIN = [("image1_vm1", "install"), ("image1_vm1", "customize"), ("vm1", "on_customize")]
 VM1_ALL = VM1_CHAIN + [("image1_vm1", "connect"), ("image1_vm1", "linux_virtuser")]
 VM2_ALL = [("image1_vm2", "install"), ("image1_vm2", "customize"), ("image1_vm2", "windows_virtuser")]
+
+
+_prev_cache = {}
+
+
+def previous_results(base_scn, status_of=lambda name: "PASS"):
+    """Results of a previous job for a replay: the tests a clean default run of `base_scn` executes, with chosen statuses."""
+    from vt.e1 import engine
+
+    key = base_scn.parse_key()
+    if key not in _prev_cache:
+        x = engine.execute(base_scn.variant("/prev", shared=(), own={}, previous=[]), [])
+        _prev_cache[key] = [r["name"] for r in x.final["job_results"]]
+    out = []
+    for name in _prev_cache[key]:
+        st = status_of(name)
+        if st is not None:
+            out.append({"name": name, "status": st, "time_elapsed": "1.0"})
+    return out
+
+
+def replay_of(base_scn, tag, status_of=lambda name: "PASS", **kw):
+    """Scenario replaying a previous job of `base_scn` (same selection and workers) with the given pool contents."""
+    prev = previous_results(base_scn, status_of)
+    s = base_scn.variant(f"/replay[{tag}]", params={"replay": "job1"}, previous=prev, **kw)
+    return s
